@@ -33,7 +33,7 @@ ASSUMPTIONS = [
 ]
 
 SETTINGS: Dict[str, Dict[str, Any]] = {
-    "quick": {"cases": 2400, "cli_cases": 16, "budget_s": 50, "minimums": {"decisions": 2000, "nontrivial": 500, "cli_fractions": 30}},
+    "quick": {"cases": 2400, "cli_cases": 48, "budget_s": 50, "minimums": {"decisions": 2000, "nontrivial": 500, "cli_fractions": 30}},
     "thorough": {"cases": 120000, "cli_cases": 320, "budget_s": 420, "minimums": {"decisions": 100000, "nontrivial": 20000, "cli_fractions": 500}},
 }
 
